@@ -53,7 +53,11 @@ impl Ctx {
             // reference on the JSON image
             let want = Eval::builtin().search(&p.tree, image);
             let ok = match (&want, &got) {
-                (Ok(V::J(w)), g) if g.starts_with("ok ") => serde_json::from_str::<Value>(&g[3..]).map_or(false, |gv| deep_eq(w, &gv)),
+                (Ok(V::J(w)), g) if g.starts_with("ok ") => match serde_json::from_str::<Value>(&g[3..]) {
+                    Ok(gv) => deep_eq(w, &gv),
+                    // the text is nested deeper than the JSON reader of this harness goes (128 levels): compare the texts
+                    Err(_) => serde_json::to_string(w).map_or(false, |t| t == g[3..]),
+                },
                 (Err(err), g) if g.starts_with("err ") => g == &format!("err {:?}", err.class),
                 _ => false,
             };
@@ -124,6 +128,54 @@ pub fn driver(tier: Tier, path: &str) -> i32 {
         let img = serde_json::to_value(v).unwrap();
         ctx.case("f64", &format!("{:?}", v), &img, &|e| e.search(v));
     }
+    // magnitude thresholds (f32 exactness, i32/u32/i64/u64 range, 2^53, the change of printing form between
+    // 1e15 and 1e21): whole values, halves where representable, both signs
+    {
+        let mut thr: Vec<f64> = Vec::new();
+        for p in [24i32, 31, 32, 52, 53, 63, 64] {
+            let v = 2f64.powi(p);
+            thr.extend([v, -v, v - 1.0, v + 1.0, v * 1.5]);
+        }
+        for k in 0..=23i32 {
+            let v = 10f64.powi(k);
+            thr.extend([v, -v, v * 2.5, v + 0.5, v * 9.0]);
+        }
+        thr.extend([1e-5, 1e-6, 1e-7, 1.5e-7, 4503599627370495.5, 1e-310, -1e-310, 1.1125369292536007e-308, 2.2250738585072009e-308]);
+        for v in thr {
+            let img = serde_json::to_value(v).unwrap();
+            ctx.case("f64", &format!("{:?}", v), &img, &|e| e.search(v));
+            ctx.case("&f64", &format!("{:?}", v), &img, &|e| e.search(&v));
+            let d = json!({"a": v, "b": [v, 1]});
+            let repr = serde_json::to_string(&d).unwrap();
+            ctx.case("Value", &repr, &d, &|e| e.search(d.clone()));
+            ctx.case("&Value", &repr, &d, &|e| e.search(&d));
+            let f = v as f32;
+            if f.is_finite() {
+                let img = serde_json::to_value(f).unwrap();
+                ctx.case("f32", &format!("{:?}", f), &img, &|e| e.search(f));
+            }
+        }
+    }
+    // nesting ladder: documents built in memory (no JSON text involved), arrays / objects / mixed around a leaf
+    {
+        for depth in [1usize, 2, 3, 16, 64, 100, 126, 127, 128, 129, 130, 200, 256, 257, 400] {
+            for kind in ["array", "object", "mixed"] {
+                let mut v = json!(7);
+                for i in 0..depth {
+                    v = match (kind, i % 2) {
+                        ("array", _) | ("mixed", 0) => Value::Array(vec![v]),
+                        _ => json!({ "a": v }),
+                    };
+                }
+                let repr = format!("nest-{}-{}", kind, depth);
+                ctx.case("Value", &repr, &v, &|e| e.search(v.clone()));
+                ctx.case("&Value", &repr, &v, &|e| e.search(&v));
+                let rc = crate::implx::value_to_var(&v);
+                ctx.case("&Rcvar", &repr, &v, &|e| e.search(&rc));
+                ctx.case("Variable", &repr, &v, &|e| e.search((*rc).clone()));
+            }
+        }
+    }
     let f32s = [0.0f32, -0.0, 1.0, 0.1, 1.5, f32::MAX, f32::MIN, f32::MIN_POSITIVE, 1.0e-40, f32::EPSILON, 16777217.0, f32::NAN, f32::INFINITY, f32::NEG_INFINITY];
     for v in f32s {
         let img = serde_json::to_value(v).unwrap();
@@ -189,7 +241,11 @@ pub fn driver(tier: Tier, path: &str) -> i32 {
                     };
                     let want = Eval::builtin().search(&p.tree, v);
                     let ok = match (&want, &got) {
-                        (Ok(V::J(w)), g) if g.starts_with("ok ") => serde_json::from_str::<Value>(&g[3..]).map_or(false, |gv| deep_eq(w, &gv)),
+                        (Ok(V::J(w)), g) if g.starts_with("ok ") => match serde_json::from_str::<Value>(&g[3..]) {
+                    Ok(gv) => deep_eq(w, &gv),
+                    // the text is nested deeper than the JSON reader of this harness goes (128 levels): compare the texts
+                    Err(_) => serde_json::to_string(w).map_or(false, |t| t == g[3..]),
+                },
                         (Err(err), g) if g.starts_with("err ") => g == &format!("err {:?}", err.class),
                         _ => false,
                     };
